@@ -360,4 +360,10 @@ def run(tier: str) -> Run:
             r5.ok(name)
     from checks import c19_runs
     c19_runs.rule(run, repo, tier, loc(pfi))
+    r7 = run.rule('R7', 'the plateaus found do not depend on earlier calls: two find_plateaus calls in one world (module-level tables and caches '
+                        'persist) with the tolerance given as an integer and as the equal floating-point number, coordinate and tolerance in '
+                        'different units: the bins of the second call are those of a fresh interpreter', 1)
+    bad7, n7, fresh7 = c19_runs.tolerance_histories(repo, pfi)
+    r7.check(not bad7, 'integer / floating-point tolerance of equal value', loc(pfi), {'histories': n7, 'histories_with_other_bins': len(bad7), 'first': bad7[:1],
+                                                                                      'fresh': {k: str(v) for k, v in fresh7.items()}}, key='history:tolerance')
     return run
